@@ -129,7 +129,7 @@ func newEnv() (*env, error) {
 		return nil, fmt.Errorf("duckdb: %w", err)
 	}
 	e.buf = ingest.NewArrowBuffer(&config.IngestConfig{MaxBufferSize: 1 << 30, MaxBufferAgeMS: 3600 * 1000,
-		Compression: "snappy", FlushWorkers: 2, FlushQueueSize: 16, ShardCount: 4}, e.backend, logger)
+		Compression: "snappy", FlushWorkers: 2, FlushQueueSize: 16, ShardCount: 4, FlushTimeoutSeconds: 600}, e.backend, logger)
 	h := api.NewImportHandler(logger)
 	h.SetArrowBuffer(e.buf)
 	e.app = fiber.New(fiber.Config{DisableStartupMessage: true, BodyLimit: 64 << 20})
@@ -144,12 +144,12 @@ func (e *env) close() {
 }
 
 func (e *env) quiesce() error {
-	ctx, cancel := context.WithTimeout(context.Background(), 60*time.Second)
+	ctx, cancel := context.WithTimeout(context.Background(), 600*time.Second)
 	defer cancel()
 	if err := e.buf.FlushAll(ctx); err != nil {
 		return err
 	}
-	deadline := time.Now().Add(60 * time.Second)
+	deadline := time.Now().Add(600 * time.Second)
 	for {
 		st := e.buf.GetStats()
 		if fmt.Sprint(st["flush_queue_depth"]) == "0" && fmt.Sprint(st["active_buffers"]) == "0" &&
